@@ -172,6 +172,62 @@ pub struct Packed {
     pub private: Vec<Vec<u64>>,
 }
 
+// ---------------------------------------------------------------------------------------
+// C15 additions (behaviour-preserving): entry-point marker + parameter overrides
+
+thread_local! {
+    static STAGE: std::cell::Cell<&'static str> = const { std::cell::Cell::new("") };
+}
+
+/// Engines call this right before every call into the repository's API (`allocate`,
+/// `verify_circuit`, `circuit_build`, `pack_values`, `set_inputs`, `set_mmcs_private_data`, `run`).
+pub fn set_stage(s: &'static str) {
+    STAGE.with(|c| c.set(s));
+}
+
+/// The API entry point this thread's engine entered last — for a `Reject` / `Panic` verdict of
+/// `circuit_verify*` this is the entry point that returned the error / panicked.
+pub fn last_stage() -> &'static str {
+    STAGE.with(|c| c.get())
+}
+
+/// The four integers of `FriVerifierParams` plus the MMCS switch (`permutation_config: Some/None`).
+#[derive(Clone, Debug, PartialEq, Eq)]
+pub struct FvpSpec {
+    pub log_blowup: usize,
+    pub log_final_poly_len: usize,
+    pub commit_pow_bits: usize,
+    pub query_pow_bits: usize,
+    /// `false` = `FriVerifierParams::unsafe_arithmetic_only_for_tests`
+    pub mmcs: bool,
+}
+
+impl FvpSpec {
+    pub fn of(fs: &FriSpec) -> Self {
+        FvpSpec {
+            log_blowup: fs.log_blowup,
+            log_final_poly_len: fs.log_final_poly_len,
+            commit_pow_bits: fs.commit_pow_bits,
+            query_pow_bits: fs.query_pow_bits,
+            mmcs: true,
+        }
+    }
+}
+
+/// Companion data of a verification other than the proof tree (C15: malformed parameter sets).
+/// Everything `None` = the fixture's own parameters.
+#[derive(Clone, Debug, Default)]
+pub struct ParamOverride {
+    /// `FriParameters` + MMCS cap height of the `StarkConfig` used by the NATIVE verifier and
+    /// handed to the circuit API as `config`
+    pub config: Option<FriSpec>,
+    /// `FriVerifierParams` handed to the circuit API
+    pub fvp: Option<FvpSpec>,
+    /// circuit-table fixtures only: the `BatchStarkProof` JSON whose metadata (everything except
+    /// `proof` and `stark_common`, which still come from the tree) replaces the honest one
+    pub bsp_json: Option<Value>,
+}
+
 /// Typed, per-thread half of a fixture.
 pub trait Engine {
     /// Plonky3's native verifier on the tree.
@@ -186,6 +242,18 @@ pub trait Engine {
     fn circuit_packed(&mut self, shape_tree: &Value, packed: &Packed) -> Verdict;
     /// `(public_flat_len, private_flat_len)` of the circuit built for the tree's skeleton.
     fn circuit_io_lens(&mut self, tree: &Value) -> Result<(usize, usize), String>;
+    /// C14: pack `tagged` (same skeleton as the honest tree, every field leaf a distinct tag) with the
+    /// repository's packing code, load it into the circuit of that skeleton and report where every
+    /// value landed next to the hand-written target walk (`crate::placement`).
+    fn placement(&mut self, _tagged: &Value) -> Result<crate::placement::Placement, String> {
+        Err("this engine does not support placement observation".to_string())
+    }
+    /// C15: install (`Some`) or remove (`None`) a parameter override. While one is installed only
+    /// `native` and `circuit(.., fresh = true)` may be used (the per-skeleton cache does not know
+    /// about parameters). Returns `false` if the engine does not support overrides.
+    fn set_override(&mut self, _ov: Option<&ParamOverride>) -> bool {
+        false
+    }
 }
 
 #[derive(Default)]
@@ -271,6 +339,9 @@ pub struct Fixture {
     pub stats: Arc<Stats>,
     /// every prover-side deviation this fixture can produce (empty if none)
     pub forge_space: Vec<Forge>,
+    /// further honest companion data as JSON (`Null` if none). Circuit-table fixtures:
+    /// `{"bsp_json": <honest BatchStarkProof>}` (C15 enumerates faults of its metadata).
+    pub extra: Value,
     forger: Option<Forger>,
     factory: Factory,
 }
@@ -289,9 +360,15 @@ impl Fixture {
             honest,
             stats: Arc::new(Stats::default()),
             forge_space: vec![],
+            extra: Value::Null,
             forger: None,
             factory,
         }
+    }
+
+    pub fn with_extra(mut self, extra: Value) -> Self {
+        self.extra = extra;
+        self
     }
 
     pub fn with_forger(mut self, space: Vec<Forge>, forger: Forger) -> Self {
@@ -365,6 +442,32 @@ impl Fixture {
     }
     pub fn circuit_io_lens(&self, tree: &Value) -> Result<(usize, usize), String> {
         self.with_engine(|e| e.circuit_io_lens(tree)).and_then(|r| r)
+    }
+    /// C14: see `Engine::placement`.
+    pub fn placement(&self, tagged: &Value) -> Result<crate::placement::Placement, String> {
+        self.with_engine(|e| e.placement(tagged)).and_then(|r| r)
+    }
+    /// C15: `(native verdict, fresh-circuit verdict, entry point the circuit side stopped in)` of
+    /// `tree` under a parameter override. The override is removed again before returning.
+    pub fn verify_with_override(&self, tree: &Value, ov: &ParamOverride) -> Result<(Verdict, Verdict, &'static str), String> {
+        self.with_engine(|e| {
+            if !e.set_override(Some(ov)) {
+                return Err("engine does not support parameter overrides".to_string());
+            }
+            let n = e.native(tree);
+            set_stage("");
+            let c = e.circuit(tree, true);
+            let st = last_stage();
+            e.set_override(None);
+            Ok((n, c, st))
+        })
+        .and_then(|r| r)
+    }
+    /// C15: fresh-circuit verdict plus the entry point it stopped in (`run` for Accept).
+    pub fn circuit_verify_fresh_staged(&self, tree: &Value) -> (Verdict, &'static str) {
+        set_stage("");
+        let v = self.circuit_verify_fresh(tree);
+        (v, last_stage())
     }
     /// Drop this thread's engine (frees the circuit cache).
     pub fn release_thread_engine(&self) {
